@@ -199,13 +199,18 @@ def tlc_trace(tla, shards, pid, cfg="Trace.cfg", par=None, env=None, timeout=360
 # known findings
 
 def load_known():
-    p = os.path.join(VERIF, "KNOWN_FINDINGS.jsonl")
+    """KNOWN_FINDINGS.txt: 'known: property=Cxx :: {matcher json} :: what' lines
+    become matchers; 'fixed:' lines suppress nothing."""
+    p = os.path.join(VERIF, "KNOWN_FINDINGS.txt")
     out = []
     if os.path.exists(p):
         for line in open(p):
             line = line.strip()
-            if line and not line.startswith("#"):
-                out.append(json.loads(line))
+            if not line.startswith("known:"):
+                continue
+            head, matcher, what = [x.strip() for x in line.split("::", 2)]
+            pid = re.search(r"property=(C\d+)", head).group(1)
+            out.append({"status": "known", "property": pid, "match": json.loads(matcher), "what": what})
     return out
 
 
